@@ -4,4 +4,5 @@ CONSTANTS
     Contents <- ContentsTr
     Size <- SizeTr
     Routes = {"object", "index"}
+    Spellings = {"plain", "slash", "rel"}
 INVARIANT Judge
